@@ -597,7 +597,13 @@ func (s *solver) crossCheck(extras []*term, got satResult) error {
 		fmt.Fprintf(&script, "(assert %s)\n", refSMT(e))
 	}
 	script.WriteString("(check-sat)\n")
-	args := []string{"--lang=smt2", fmt.Sprintf("--tlimit=%d", s.timeoutMs)}
+	// (an inconclusive cross-check is not a disagreement, so it gets a short deadline: queries with a
+	// division by 10^6 never come back from cvc5 and would cost the full time-out each)
+	limit := s.timeoutMs
+	if limit > 5000 {
+		limit = 5000
+	}
+	args := []string{"--lang=smt2", fmt.Sprintf("--tlimit=%d", limit)}
 	cmd := exec.Command("cvc5", args...)
 	cmd.Stdin = &script
 	outb, _ := cmd.Output()
